@@ -1,5 +1,6 @@
 import RLV.Model.Kill
 import RLV.Lemmas.ViOps
+import RLV.Lemmas.Utf8
 /-! The kill commands of Model/Kill.lean (`kill-line`, `backward-kill-line`, `backward-kill-word`)
 followed by `yank`: what the command removes is what it stores, and yanking it where the command
 leaves the cursor restores the buffer (C16, at the level of the commands). -/
@@ -353,12 +354,6 @@ end RLV.Kill
 
 namespace RLV.Tok
 open RLV RLV.Core
-
-theorem encodeRune_ne_nil (r : Nat) : encodeRune r ≠ [] := by
-  unfold encodeRune
-  simp only
-  repeat' split
-  all_goals simp
 
 theorem blen_snoc_pos (t : List Nat) (c : Nat) : 1 ≤ blen (t ++ [c]) := by
   unfold blen utf8
